@@ -54,6 +54,8 @@ def run_property(spec, tier="quick"):
             rule(prog, report, tier)
         for rule_name, floor in spec.get("floors", {}).items():
             n = report.count(rule_name)
+            if any(f.rule == rule_name for f in report.findings):
+                continue  # a rule that found a violation has evidently matched the code
             if n < floor:
                 raise AnalysisError(
                     "vacuity floor: rule %s examined %d instance(s), fewer than the %d without which its model of "
